@@ -47,11 +47,22 @@ type EnumV struct {
 	V int    `json:"v"`
 }
 
+type IdRef struct {
+	P string `json:"p"`
+	N string `json:"n"`
+}
+
+type Identity struct {
+	N     string  `json:"n"`
+	Bases []IdRef `json:"bases"`
+}
+
 type TypeStmt struct {
-	P   string  `json:"p"`
-	N   string  `json:"n"`
-	Rng string  `json:"rng"`
-	En  []EnumV `json:"en"`
+	P    string  `json:"p"`
+	N    string  `json:"n"`
+	Rng  string  `json:"rng"`
+	En   []EnumV `json:"en"`
+	Base IdRef   `json:"base"`
 }
 
 type Typedef struct {
@@ -66,6 +77,7 @@ type EffType struct {
 	Base string   `json:"base"`
 	Rngs []string `json:"rngs"`
 	En   []EnumV  `json:"en"`
+	Ids  []string `json:"ids"`
 }
 
 type Stmt struct {
@@ -99,6 +111,7 @@ type Module struct {
 	Belongs  string     `json:"belongs"`
 	Gs       []Grouping `json:"gs"`
 	Tds      []Typedef  `json:"tds"`
+	Ids      []Identity `json:"ids"`
 	Body     []Stmt     `json:"body"`
 	Augs     []Augment  `json:"augs"`
 	Includes []string   `json:"includes"`
@@ -132,13 +145,20 @@ func renderType(sb *strings.Builder, t TypeStmt, d int) {
 	if name == "" {
 		name = "string"
 	}
-	if t.Rng == "" && len(t.En) == 0 {
+	if t.Rng == "" && len(t.En) == 0 && t.Base.N == "" {
 		fmt.Fprintf(sb, "%stype %s;\n", ind(d), name)
 		return
 	}
 	fmt.Fprintf(sb, "%stype %s {\n", ind(d), name)
 	if t.Rng != "" {
 		fmt.Fprintf(sb, "%srange %q;\n", ind(d+1), t.Rng)
+	}
+	if t.Base.N != "" {
+		b := t.Base.N
+		if t.Base.P != "" {
+			b = t.Base.P + ":" + b
+		}
+		fmt.Fprintf(sb, "%sbase %s;\n", ind(d+1), b)
 	}
 	for _, e := range t.En {
 		if e.V >= 0 {
@@ -262,6 +282,17 @@ func RenderModule(m Module, features []string) string {
 			fmt.Fprintf(&sb, "  feature %s;\n", f)
 		}
 	}
+	for _, id := range m.Ids {
+		fmt.Fprintf(&sb, "  identity %s {\n", id.N)
+		for _, b := range id.Bases {
+			n := b.N
+			if b.P != "" {
+				n = b.P + ":" + n
+			}
+			fmt.Fprintf(&sb, "    base %s;\n", n)
+		}
+		sb.WriteString("  }\n")
+	}
 	renderTypedefs(&sb, m.Tds, 1)
 	renderGroupings(&sb, m.Gs, 1)
 	renderStmts(&sb, m.Body, 1)
@@ -285,10 +316,11 @@ func toNodes(kids []PNode, parentCfg bool, parentName string, path string, in *i
 		case "rpc", "notification", "again":
 			continue
 		}
-		n := Node{K: k.K, N: k.N, Mand: k.Mand == "true", Desc: k.Desc, Keys: k.Keys, C: []Node{}, Units: k.Units, Et: EffType{Rngs: []string{}, En: []EnumV{}}}
+		n := Node{K: k.K, N: k.N, Mand: k.Mand == "true", Desc: k.Desc, Keys: k.Keys, C: []Node{}, Units: k.Units, Et: EffType{Rngs: []string{}, En: []EnumV{}, Ids: []string{}}}
 		if k.Type != nil {
 			n.Et.Base = strings.TrimSuffix(k.Type.Format, "-list")
 			n.Et.Rngs = append(n.Et.Rngs, k.Type.Ranges...)
+			n.Et.Ids = append(n.Et.Ids, k.Type.Bases...)
 			for _, e := range k.Type.Enums {
 				if i := strings.LastIndexByte(e, '='); i > 0 {
 					v := 0
